@@ -2484,6 +2484,7 @@ void DGXMLScanner::scanReset(const InputSource& src)
         fEntityExpansionLimit = fSecurityManager->getEntityExpansionLimit();
         fEntityExpansionCount = 0;
     }
+    fElemCount = 0;
     if(fUIntPoolRowTotal >= 32)
     { // 8 KB tied up with validating attributes...
         fAttDefRegistry->removeAll();
